@@ -1180,6 +1180,8 @@ pub fn plan(tier: &str) -> (PropMeta, Vec<Job>) {
 
 pub fn run_job(job: &Job) -> JobResult {
     let cj: CodJob = serde_json::from_value(job.spec.clone()).expect("cod job");
+    // requests, responses and malformed frames are logged by the server: format it all
+    crate::node::install_verbose_logging();
     let mut res = JobResult::default();
     match cj.part {
         1 => part1(&mut res, cj.shard as u8),
